@@ -106,6 +106,47 @@ func init() {
 		}
 		return submit(n, &nom.AccountBlock{BlockType: nom.BlockTypeUserReceive, Address: Users[o.A].Address, FromBlockHash: *h})
 	}
+	// Rpooldup: account A receives AGAIN the send that its latest still-unconfirmed receive block references
+	Extra["Rpooldup"] = func(n *vnode.Node, o Op) string {
+		addr := Users[o.A].Address
+		var h *types.Hash
+		for _, b := range n.Chain.GetUncommittedAccountBlocksByAddress(addr) {
+			if b.BlockType == nom.BlockTypeUserReceive {
+				x := b.FromBlockHash
+				h = &x
+			}
+		}
+		if h == nil {
+			return "nopooledreceive"
+		}
+		return submit(n, &nom.AccountBlock{BlockType: nom.BlockTypeUserReceive, Address: addr, FromBlockHash: *h})
+	}
+	// RdupOld: account A receives again a send whose receive is already CONFIRMED, acknowledging the momentum just below
+	// the one that confirmed that receive (allowed as long as it is not older than the predecessor's acknowledgement)
+	Extra["RdupOld"] = func(n *vnode.Node, o Op) string {
+		addr := Users[o.A].Address
+		st := n.Chain.GetFrontierMomentumStore()
+		acc := st.GetAccountStore(addr)
+		for h := acc.Identifier().Height; h >= 1; h-- {
+			b, err := acc.ByHeight(h)
+			if err != nil || b == nil {
+				break
+			}
+			if b.BlockType != nom.BlockTypeUserReceive {
+				continue
+			}
+			c, err := st.GetBlockConfirmationHeight(b.Hash)
+			if err != nil || c < 2 {
+				return "noconf"
+			}
+			m, err := st.GetMomentumByHeight(c - 1)
+			if err != nil || m == nil {
+				return "noack"
+			}
+			return submit(n, &nom.AccountBlock{BlockType: nom.BlockTypeUserReceive, Address: addr, FromBlockHash: b.FromBlockHash, MomentumAcknowledged: m.Identifier()})
+		}
+		return "noreceived"
+	}
 	// Mint: A asks the token contract to mint V of token T to B
 	Extra["Mint"] = func(n *vnode.Node, o Op) string {
 		zts := tokenFor(n, o.T)
